@@ -4,9 +4,20 @@ set -u
 . /verif/scripts/env.sh
 ID=$1; TIER=${2:-quick}; shift 2 || true
 cd /verif/mc || exit 2
-cp /repo/go.sum go.sum 2>/dev/null
+# VERIF_REPO (default /repo) lets a seeded change be evaluated in a scratch worktree without touching /repo
+REPO=${VERIF_REPO:-/repo}
+export VERIF_REPO=$REPO
+MODFLAG=""
+if [ "$REPO" != "/repo" ]; then
+  sed "s#=> /repo#=> $REPO#" go.mod > /verif/out/alt.$$.mod
+  cp $REPO/go.sum /verif/out/alt.$$.sum
+  MODFLAG="-modfile=/verif/out/alt.$$.mod"
+  export VERIF_MODFLAG="$MODFLAG"
+else
+  cp /repo/go.sum go.sum 2>/dev/null
+fi
 BIN=/verif/out/bin/check.$$
-if ! $GO build -tags verif -o $BIN ./cmd/check 2>/verif/out/build.$$.log; then
+if ! $GO build $MODFLAG -tags verif -o $BIN ./cmd/check 2>/verif/out/build.$$.log; then
   cat /verif/out/build.$$.log; rm -f /verif/out/build.$$.log
 case "$ID" in C08|C13) export GODEBUG=clobberfree=1 ;; esac
   echo "HARNESS-ERROR build failed"; exit 2
@@ -15,5 +26,5 @@ rm -f /verif/out/build.$$.log
 case "$ID" in C08|C13) export GODEBUG=clobberfree=1 ;; esac
 $BIN -prop "$ID" -tier "$TIER" "$@"
 rc=$?
-rm -f $BIN
+rm -f $BIN /verif/out/alt.$$.mod /verif/out/alt.$$.sum
 exit $rc
